@@ -378,7 +378,7 @@ def snapshot(c, op):
         isq = isinstance(a, Quantity)
         return {'load': site[0] if isq else 'loaderVariable',
                 'apiBase': 'factoryQuantity' if isq else 'newVariable',
-                'conv': 'convFactor' if isq else ('origDerivVariable' if '_orig_deriv' in a.name else 'convVariable'),
+                'conv': 'convFactor' if isq else ('origDerivVariable' if a.name.rfind('_orig_deriv') > a.name.rfind('_converted') else 'convVariable'),
                 'sing': 'singQuantity' if isq else 'strayVariable',
                 'fix': 'maybeConvert' if isq else 'strayVariable',
                 'fixAll': 'maybeConvert' if isq else 'strayVariable'}.get(op, 'strayQuantity' if isq else 'strayVariable')
